@@ -106,7 +106,8 @@ def style_tuple(st):
 
 def rand_style(rng, families, ident, images):
     from vf.gen import docs
-    kw = {"name": f"VF {ident}"}
+    # names that are different strings but equal after lower-casing or after turning blanks into hyphens are different styles
+    kw = {"name": ["VF {}", "vf-{}", "Vf {}", "VF-{}"][ident % 4].format(ident // 4)}
     kw["font_name"] = families[(ident * 7919 + rng.randrange(len(families))) % len(families)]
     if rng.random() < .8:
         kw["font_size"] = rng.randrange(2, 193) / 2.0
